@@ -662,6 +662,8 @@ fn literal(parts: &[&str]) -> String {
     "U" => Type2::UintValue { value: a.parse().unwrap_or(0), span: sp() }.to_string(),
     "I" => Type2::IntValue { value: a.parse().unwrap_or(0), span: sp() }.to_string(),
     "F" => Type2::FloatValue { value: f64::from_bits(u64::from_str_radix(a, 16).unwrap_or(0)), span: sp() }.to_string(),
+    // the shortest round-trip digits of core::fmt (same generator as `{}`), in exponent layout: the "digits as given" of Fmt/Render.v
+    "FE" => format!("{:e}", f64::from_bits(u64::from_str_radix(a, 16).unwrap_or(0))),
     "T" => Type2::TextValue { value: Cow::Owned(impl_driver::unhex_str(a)), span: sp() }.to_string(),
     "BU" => Type2::UTF8ByteString { value: Cow::Owned(impl_driver::unhex(a)), span: sp() }.to_string(),
     "BH" => Type2::B16ByteString { value: Cow::Owned(impl_driver::unhex(a)), span: sp() }.to_string(),
